@@ -26,7 +26,10 @@ Every run:
   committed contents / exec bits / timestamp.  ~10 % malformed records (whitespace in ids, linebreaks in
   committer/paths/targets, missing sha1/target) are compared on error kind.
 * Oracle (model independent) -- (a) the same record gives byte-identical
-  testaments in 2a, pack-0.92, in memory and under a second storage order, and
+  testaments in 2a, pack-0.92, in memory and under a second storage order
+  (entries, revprops AND parents: every merge is also rebuilt with its parents
+  reversed - "recorded from the other side" - in every mode;
+  testament_parent_order_independent; seed C41b dropped the `sorted()`), and
   `as_short_text()` is header + revision id + sha1(as_text()); (b) every
   single-field perturbation of an attested field (path, content, exec bit,
   symlink target, file id, message, committer, timestamp, timezone, parents,
@@ -76,6 +79,7 @@ from vlib import env
 
 THEOREMS = [
     "testament_storage_order_independent",
+    "testament_parent_order_independent",
     "testament_injective_partial",
     "testament_sensitive_partial",
     "testament_sensitive_scalars",
@@ -213,7 +217,7 @@ def gen_record(rng, wild=False):
     if rng.random() < (0.2 if wild else 0.08):
         tz = None               # `rev.timezone or 0`; both formats store None
     parents = []
-    for _ in range(rng.choice([0, 1, 1, 2, 3])):
+    for _ in range(rng.choice([0, 1, 1, 2, 2, 3])):
         p = _ident(rng, rng.choice(["rev-", "p", ""]))
         if p not in parents:
             parents.append(p)
@@ -243,6 +247,13 @@ def shuffle_storage(rng, rec):
     p = list(rec["props"])
     rng.shuffle(p)
     r["props"] = p
+    # the same merge recorded from the other side: the parents in another stored order (never the same
+    # order when there are two or more; which parent is left-hand is not attested, the parent SET is)
+    ps = list(rec["parents"])
+    if len(ps) >= 2:
+        k = rng.randrange(1, len(ps))
+        ps = list(reversed(ps)) if rng.random() < 0.5 else ps[k:] + ps[:k]
+    r["parents"] = ps
     return r
 
 
@@ -1033,11 +1044,13 @@ def one_commit(ctx, batch, rng, i):
         ctx.count("commit-refused:" + type(e).__name__)
 
 
-def _det_oracle(ctx, rec, what, ref, other, mode_a, mode_b):
+def _det_oracle(ctx, rec, what, ref, other, mode_a, mode_b, base=None):
     for v in VARIANTS:
         if ref[v] != other[v]:
-            ctx.violation(dict(kind="det", modes=[mode_a, mode_b], variant=v, rec=rec, what=what),
-                          "same attested data, different testament (class %s): %s vs %s: %r != %r"
+            case = dict(kind="det", modes=[mode_a, mode_b], variant=v, rec=rec, what=what)
+            if base is not None and base != rec:
+                case["base"] = base         # the record `ref` was made from (same data, other storage order)
+            ctx.violation(case, "same attested data, different testament (class %s): %s vs %s: %r != %r"
                           % (v, mode_a, mode_b, ref[v][0], other[v][0]))
 
 
@@ -1066,8 +1079,16 @@ def one_base(ctx, batch, rng, rec):
     m2 = rng.choice(modes)
     res2 = _observe(ctx, batch, rec2, m2, "reorder")
     if res2 is not None:
-        _det_oracle(ctx, rec2, "storage-order", ref, res2, ref_mode, m2 + "/reordered")
+        _det_oracle(ctx, rec2, "storage-order", ref, res2, ref_mode, m2 + "/reordered", base=rec)
         ctx.count("reordered")
+    if len(rec["parents"]) >= 2:
+        # a merge: the parents-reversed record (the merge as recorded from the other side) in every mode
+        rec3 = dict(rec, parents=list(reversed(rec["parents"])))
+        for m3 in modes:
+            res3 = _observe(ctx, batch, rec3, m3, "merge-other-side")
+            if res3 is not None:
+                _det_oracle(ctx, rec3, "parent-order", ref, res3, ref_mode, m3 + "/parents-reversed", base=rec)
+                ctx.count("merge-other-side:" + m3)
     return ref
 
 
@@ -1242,6 +1263,15 @@ def replay(ctx, case):
         for m in ms[1:]:
             _det_oracle(ctx, rec, "format", obs[ms[0]], obs[m], ms[0], m)
         out["impl"] = {m: {v: repr(obs[m][v][0]) for v in VARIANTS} for m in ms}
+        if case.get("base") is not None and ms:
+            # same data in another storage order (entries / revprops / parents): compare with the base record
+            base = case["base"]
+            bm = "mem" if base.get("wild") else "2a"
+            bobs = _observe(ctx, batch, base, bm, "base")
+            if bobs is not None:
+                for m in ms:
+                    _det_oracle(ctx, rec, case.get("what", "storage-order"), bobs, obs[m], bm + "/base", m, base=base)
+                out["impl"]["base:" + bm] = {v: repr(bobs[v][0]) for v in VARIANTS}
     elif case.get("kind") in ("splitlines", "esc", "canon", "join"):
         pass
     elif "commit" in case or str(case.get("kind", "")).startswith("commit"):
